@@ -1,0 +1,19 @@
+// Copyright ©2011-2012 The bíogo Authors. All rights reserved.
+// Use of this source code is governed by a BSD-style
+// license that can be found in the LICENSE file.
+
+//go:build !verif
+
+package morass
+
+import (
+	"io"
+	"os"
+)
+
+// verifStep and verifWrapFile are observation points for the external
+// verification harness. Without the verif build tag they do nothing.
+
+func verifStep(string) {}
+
+func verifWrapFile(*os.File) (io.Writer, io.Reader) { return nil, nil }
